@@ -372,17 +372,29 @@ class ToScript(Contract):
         if not want:
             out["no_columns_written_as_empty_dict_body"] = cs == ""
         else:
-            ok = isinstance(cs, Joined) and cs.sep.strip() == "," and len(cs.items) == len(want) and all(
-                isinstance(it, Fmt) and len(it.parts) == 4 and it.parts[0] == "'" and it.parts[2] == "': " and isinstance(it.parts[3], Tmpl) and it.parts[3].template is m.COLUMN_TEMPLATE
-                for it in cs.items)
+            def key_text(it):
+                """'<key text>: Column(...)' -> the key text (hand-quoted or repr), else None"""
+                if not (isinstance(it, Fmt) and it.parts and isinstance(it.parts[-1], Tmpl) and it.parts[-1].template is m.COLUMN_TEMPLATE):
+                    return None
+                pre = list(it.parts[:-1])
+                if len(pre) == 3 and pre[0] in ("'", '"') and pre[2] == pre[0] + ": ":
+                    return Fmt([pre[0], pre[1], pre[0]])
+                if len(pre) == 2 and isinstance(pre[0], Repr) and pre[1] == ": ":
+                    return pre[0]
+                return None
+
+            ok = isinstance(cs, Joined) and cs.sep.strip() == "," and len(cs.items) == len(want) and all(key_text(it) is not None for it in cs.items)
             out["one_key_colon_Column_item_per_column_in_order"] = ok
             if ok:
                 for i, (it, (name, o, snap)) in enumerate(zip(cs.items, want)):
-                    keytxt = Fmt(["'", it.parts[1], "'"])
+                    keytxt = key_text(it)
                     holds, form = evaluates_to(keytxt, name)
-                    hq.append((f"column_{i}_key", holds))
-                    out[f"column_{i}_key_evaluates_to_the_column_name_when_it_needs_no_escaping"] = evaluates_to(keytxt, name, any_text=False)[0]
-                    tm = it.parts[3]
+                    if form == "E3 hand-quoted":
+                        hq.append((f"column_{i}_key", holds))
+                        out[f"column_{i}_key_evaluates_to_the_column_name_when_it_needs_no_escaping"] = evaluates_to(keytxt, name, any_text=False)[0]
+                    else:
+                        out[f"column_{i}_key_evaluates_to_the_column_name"] = holds
+                    tm = it.parts[-1]
                     slot_obligations(tm, snap, COLUMN_FIELDS, out, f"column_{i}_", hq)
                     if "checks" in tm.slots:
                         checks_text_matches(tm.slots["checks"], snap["checks"], out, f"column_{i}_")
